@@ -23,6 +23,39 @@ func methodFamily(p *core.Prog, nt *types.Named, root string) []*ssa.Function {
 	out := []*ssa.Function{start}
 	for i := 0; i < len(out); i++ {
 		core.Instrs(out[i], func(in ssa.Instruction) {
+			// a function literal that runs as part of the method: handed to a helper of the type that calls it
+			// (s.withLock(func() { … })), called or deferred on the spot — not one started as a goroutine
+			if mc, isMC := in.(*ssa.MakeClosure); isMC {
+				lit := mc.Fn.(*ssa.Function)
+				sync := len(core.Refs(mc)) > 0
+				for _, r := range core.Refs(mc) {
+					switch x := r.(type) {
+					case *ssa.Call:
+						h := x.Call.StaticCallee()
+						isArg := false
+						for _, a := range x.Call.Args {
+							if a == ssa.Value(mc) {
+								isArg = true
+							}
+						}
+						if !(x.Call.Value == ssa.Value(mc) || (isArg && h != nil && core.RecvName(h) == nt.Obj().Name())) {
+							sync = false
+						}
+					case *ssa.Defer:
+						if x.Call.Value != ssa.Value(mc) {
+							sync = false
+						}
+					case *ssa.DebugRef:
+					default:
+						sync = false
+					}
+				}
+				if sync && !seen[lit] {
+					seen[lit] = true
+					out = append(out, lit)
+				}
+				return
+			}
 			cc := core.CallOf(in)
 			if cc == nil {
 				return
@@ -955,6 +988,9 @@ func reachesWithNilDecode(d *ssa.Call, r *ssa.Return, cut func(ssa.Instruction) 
 
 // msgParam: the interface{} message parameter of a receive method.
 func msgParam(fn *ssa.Function) *ssa.Parameter {
+	if len(fn.Params) < 2 {
+		return nil
+	}
 	for _, pp := range fn.Params[1:] {
 		ts := core.TypeStr(pp.Type())
 		if ts == "interface{}" || ts == "any" {
